@@ -13,6 +13,7 @@ import (
 
 	"github.com/tochemey/goakt/v4/internal/verif/vsched"
 	"github.com/tochemey/goakt/v4/internal/verif/vsync"
+	"github.com/tochemey/goakt/v4/supervisor"
 )
 
 // C01 / C02 / C03 — "turn" harness: a real actor system (instrumented package actor) inside a bubble,
@@ -51,6 +52,22 @@ func (a *c123Actor) PostStop(*Context) error { return nil }
 func (a *c123Actor) Receive(ctx *ReceiveContext) {
 	m, ok := ctx.Message().(*c123Msg)
 	if !ok {
+		// lifecycle messages delivered to Receive (PostStart after a restart, ...) are handler
+		// invocations too: they must not overlap another invocation
+		h := a.h
+		h.mu.Lock()
+		h.in++
+		if h.in > h.maxIn {
+			h.maxIn = h.in
+		}
+		if h.in > 1 && h.overlap == "" {
+			h.overlap = fmt.Sprintf("handler entered for %T while another invocation is open", ctx.Message())
+		}
+		h.mu.Unlock()
+		vsched.Point("handler-sys")
+		h.mu.Lock()
+		h.in--
+		h.mu.Unlock()
 		return
 	}
 	h := a.h
@@ -68,7 +85,13 @@ func (a *c123Actor) Receive(ctx *ReceiveContext) {
 	h.handled = append(h.handled, *m)
 	h.in--
 	h.mu.Unlock()
+	if m.prio == c123PanicPrio {
+		panic("c123: injected failure")
+	}
 }
+
+// c123PanicPrio marks a message whose handler panics after it was accounted for (supervised restart).
+const c123PanicPrio = 99
 
 // c123Grain is the grain counterpart of c123Actor (same handler instrumentation).
 type c123Grain struct{ h *c123H }
@@ -134,6 +157,7 @@ type c123Scenario struct {
 	throughput int
 	restart    bool // one more client thread calls pid.Restart concurrently
 	grain      bool // the target is a grain (TellGrain; grain turn loop and grain mailbox)
+	suprestart bool // the actor has a Restart directive and one message makes its handler panic
 	bound      int
 }
 
@@ -145,7 +169,8 @@ var c123ScopeFiles = []string{"/actor/dispatch_state.go", "/actor/ready_queue.go
 var c123ScopeFuncs2 = []string{".(*grainPID).receive", ".(*grainPID).runTurn", ".(*grainPID).finishOrReclaim", ".(*grainPID).dequeueResponse", ".(*grainPID).paused"}
 
 var c123ScopeFuncs = []string{".(*PID).doReceive", ".(*PID).runTurn", ".(*PID).finishOrReclaim", ".(*PID).dispatchOne",
-	".(*PID).handleReceived", ".(*PID).Tell", ".(*PID).restartSubtree", ".(*PID).doRestart", ".(*PID).Restart"}
+	".(*PID).handleReceived", ".(*PID).Tell", ".restartSubtree", ".(*PID).doRestart", ".(*PID).Restart",
+	".(*PID).restartChild", ".(*PID).handleRestartDirective", ".(*PID).recovery", ".(*PID).submitSupervision", ".(*PID).suspend", ".(*PID).fireSystemMessage"}
 
 func c123Scope(file, fn string) bool {
 	for _, f := range c123ScopeFiles {
@@ -188,7 +213,11 @@ func c123Run(t *testing.T, sc c123Scenario, c *vsched.Chooser) (out vsched.Outco
 			}
 			gid = id
 		} else {
-			p0, err := sys.Spawn(context.Background(), "a", &c123Actor{h: h}, WithMailbox(sc.kind.mk()), WithLongLived())
+			opts := []SpawnOption{WithMailbox(sc.kind.mk()), WithLongLived()}
+			if sc.suprestart {
+				opts = append(opts, WithSupervisor(supervisor.NewSupervisor(supervisor.WithAnyErrorDirective(supervisor.RestartDirective))))
+			}
+			p0, err := sys.Spawn(context.Background(), "a", &c123Actor{h: h}, opts...)
 			if err != nil {
 				panic(err)
 			}
@@ -220,7 +249,7 @@ func c123Run(t *testing.T, sc c123Scenario, c *vsched.Chooser) (out vsched.Outco
 						amu.Lock()
 						accepted[[2]int{m.sender, m.seq}] = true
 						amu.Unlock()
-					} else if !sc.restart {
+					} else if !sc.restart && !sc.suprestart {
 						amu.Lock()
 						tellErr = fmt.Sprintf("Tell s%d#%d: %v", m.sender, m.seq, err)
 						amu.Unlock()
@@ -277,12 +306,12 @@ func c123Run(t *testing.T, sc c123Scenario, c *vsched.Chooser) (out vsched.Outco
 			if n > 1 {
 				v = append(v, vsched.Fail("C02:message-handled-twice/"+sc.kind.name, "s%d#%d handled %d times; handled=%v", k[0], k[1], n, handled))
 			}
-			if !accepted[k] && !sc.restart {
+			if !accepted[k] && !sc.restart && !sc.suprestart {
 				v = append(v, vsched.Fail("C02:unaccepted-message-handled/"+sc.kind.name, "s%d#%d handled but its Tell did not succeed", k[0], k[1]))
 			}
 		}
 		stalled := s.Wedged != "" || s.Livelock
-		if !sc.restart { // with a concurrent restart the "stays running" premise does not hold for every message
+		if !sc.restart && !sc.suprestart { // with a concurrent restart the "stays running" premise does not hold for every message
 			for k := range accepted {
 				if cnt[k] == 0 {
 					sig := "C02:accepted-message-not-processed/"
@@ -300,7 +329,7 @@ func c123Run(t *testing.T, sc c123Scenario, c *vsched.Chooser) (out vsched.Outco
 			if tellErr != "" && sc.kind.cap == 0 {
 				v = append(v, vsched.Fail("C02:tell-rejected-by-running-actor/"+sc.kind.name, "%s", tellErr))
 			}
-		} else if stalled {
+		} else if stalled && !sc.suprestart {
 			out.Invalid = "horizon reached in restart scenario: " + s.Wedged
 		}
 		if s.Deadlock {
@@ -338,6 +367,12 @@ func c123Run(t *testing.T, sc c123Scenario, c *vsched.Chooser) (out vsched.Outco
 func c123Scenarios() []c123Scenario {
 	var out []c123Scenario
 	r := vsched.Rep()
+	// supervised restart: the first message of s1 makes the handler panic; the Restart directive
+	// re-initialises the actor while the same worker may still be inside the turn (later messages of
+	// the turn, DESIGN 7.1); PostStart and further Tells must not get a second worker in meanwhile
+	uk := c123Kinds()[0]
+	out = append(out, c123Scenario{name: "Unbounded/supervised-restart", kind: uk, throughput: 4, suprestart: true, bound: vsched.Pick(1, 2),
+		senders: [][]c123Msg{{{1, 1, c123PanicPrio}, {1, 2, 1}}, {{2, 1, 1}}}})
 	// grains: TellGrain returns only after the grain handled the message, so each sender has one
 	// message in flight at a time; two or three senders still race on the grain's mailbox/turn.
 	gk := c123Kind{name: "Grain", fifo: true}
